@@ -72,7 +72,7 @@ pub fn check(tier: Tier) -> Check {
             tier.pick(15, 300),
         ));
     }
-    // publishes carrying every option (RETAIN, all properties, a 20 000-byte payload); both connections
+    // publishes carrying every option (RETAIN, all properties, a 70 000-byte payload); both connections
     // opened by extended authentication
     parts.push(Part::new("C17/resume", json!({"depth": tier.pick(4, 5), "expiry": 1000, "secs_ago": 10, "rich": true}), 0, tier.pick(15, 300)));
     parts.push(Part::new("C17/resume", json!({"depth": tier.pick(4, 5), "expiry": 1000, "secs_ago": 10, "auth": true}), 0, tier.pick(15, 300)));
@@ -280,7 +280,7 @@ pub fn scenario_for(prop: &'static str, name: &str, params: &Value) -> Scenario 
                 p.content_type = Some("ct".into());
                 p.user_props = vec![("z".into(), "1".into()), ("a".into(), "2".into()), ("z".into(), "3".into())];
                 if big {
-                    p.payload = Some(vec![0xa5; 20_000]);
+                    p.payload = Some(vec![0xa5; 70_000]);
                 }
             }
         }
